@@ -203,6 +203,26 @@ def run_data(c):
         runs[-1]['reuse'] = {'outcome': 'ok', 'cols': [[int(v) for v in col] for col in X2.T.tolist()]}
     except Exception as e:                                            # noqa: BLE001
         runs[-1]['reuse'] = {'outcome': 'raises:' + type(e).__name__}
+    # ... and a third call on that object after the explicit value lists of the SAME structure object were edited in place:
+    # the data set is a function of seed and arguments (as they are at the call), not of what the object saw before
+    edited = False
+    for entry in (kw['structure'] or []):
+        attr = entry[1] if isinstance(entry, (list, tuple)) and len(entry) == 2 else None
+        vals = attr[0] if isinstance(attr, list) and len(attr) == 2 and isinstance(attr[0], list) else attr
+        if isinstance(vals, list) and vals and all(isinstance(v, int) for v in vals):
+            for i in range(len(vals)):
+                vals[i] += 5000
+            edited = True
+    if edited:
+        def outcome(obj):
+            np.random.random(7)
+            try:
+                Xe = obj.generate_data(**kw)
+                return {'outcome': 'ok', 'cols': [[int(v) for v in col] for col in Xe.T.tolist()]}
+            except Exception as e:                                    # noqa: BLE001
+                return {'outcome': 'raises:' + type(e).__name__}
+        runs[-1]['edited_same_object'] = outcome(cc)
+        runs[-1]['edited_fresh_object'] = outcome(CategoricalClassification(seed=c['pre'][-1]))
     return runs
 
 
@@ -409,6 +429,13 @@ def eval_cc2(ctx: Ctx, c, oracle_only, b2, runs, rep, tape, tape_known):
         if ru is not None and (ru['outcome'], ru.get('cols')) != (r2['outcome'], r2.get('cols')):
             ctx.oracle_fail('seed-same-object', f'data {desc}: generate_data called twice on ONE generator object with the same seed {c["seed"]} and '
                             f'arguments gives different results: {str(r2.get("cols", r2["outcome"]))[:80]} vs {str(ru.get("cols", ru["outcome"]))[:80]}', case)
+        ea, eb = r2.get('edited_same_object'), r2.get('edited_fresh_object')
+        if ea is not None:
+            ctx.count('structure-edited-in-place-then-recalled')
+            if ea != eb:
+                ctx.oracle_fail('seed-edited-structure', f'data {desc}: after the value lists of the structure were edited in place (+5000) the used generator '
+                                f'object returns {str(ea.get("cols", ea["outcome"]))[:90]} but a fresh object with the same seed and arguments returns '
+                                f'{str(eb.get("cols", eb["outcome"]))[:90]}', case)
         if (r2['outcome'], r2.get('cols')) != (r['outcome'], r.get('cols')):
             ctx.oracle_fail('seed', f'data {desc}: same seed {c["seed"]} and arguments, different prior generator state -> different result: '
                             f'{str(r.get("cols", r["outcome"]))[:80]} vs {str(r2.get("cols", r2["outcome"]))[:80]}', case)
